@@ -535,7 +535,7 @@ impl AsmParser {
                 }
                 TokenKind::Lit(_) => {
                     let val = self.expect_lit(Bits::Signed(bits))?;
-                    let label = Label::Ref(self.line + 1 + val);
+                    let label = Label::Ref(self.line.wrapping_add(1).wrapping_add(val));
                     Ok(label)
                 }
                 _ => {
